@@ -60,3 +60,41 @@ func fmtFloatV(x float64) string {
 	}
 	return s
 }
+
+// manyRecordsText returns a well-formed file of about total bytes made of many
+// small records, written by reference writers (not the library). Streams longer
+// than the readers' buffers (4 KiB bufio, 64 KiB Scanner) with many records are
+// where a record that aliases a reused buffer gets corrupted.
+func manyRecordsText(c *Ctx, format string, total int) []byte {
+	var buf bytes.Buffer
+	i := 0
+	for buf.Len() < total {
+		i++
+		n := 5 + c.Intn(40)
+		seq := c.RandBytes(n, []byte("ACGT"))
+		name := "r" + strconv.Itoa(i)
+		switch format {
+		case "fasta":
+			buf.WriteString(">" + name + "\n")
+			buf.Write(seq)
+			buf.WriteString("\n")
+		case "fastq":
+			buf.WriteString("@" + name + "\n")
+			buf.Write(seq)
+			buf.WriteString("\n+\n")
+			buf.Write(c.RandBytes(n, []byte("!#5?IJ~")))
+			buf.WriteString("\n")
+		case "sam", "samrec":
+			buf.WriteString(name + "\t" + strconv.Itoa(c.Intn(4096)) + "\tchr1\t" + strconv.Itoa(i) + "\t60\t" + strconv.Itoa(n) + "M\t=\t0\t0\t")
+			buf.Write(seq)
+			buf.WriteString("\t*\tNM:i:" + strconv.Itoa(c.Intn(9)) + "\n")
+		case "bed":
+			buf.WriteString("chr" + strconv.Itoa(1+c.Intn(22)) + "\t" + strconv.Itoa(i) + "\t" + strconv.Itoa(i+n) + "\t" + name + "\n")
+		case "newick":
+			buf.WriteString("(" + name + ":1.5,b" + strconv.Itoa(i) + ")c;\n")
+		default:
+			return nil
+		}
+	}
+	return buf.Bytes()
+}
